@@ -2,6 +2,7 @@
 from ..rules_tables import Tables, grammar, T1_line_count, T5_T6_cost_depth
 from ..rules_flow import Flow
 from ..rules_k import K3_class_tables
+from ..rules_gate import K1_loader, K2_reader
 
 
 def run(tree, rep, tier):
@@ -14,11 +15,15 @@ def run(tree, rep, tier):
     T1_line_count(rep, T, files, K)
     grammar(rep, T, files, rules=("T2", "T3"))
     T5_T6_cost_depth(rep, T, files)
+    # the PARSED entry (what a lookup hands out) records what the line says: fields from their columns, gates from their tokens
+    K2_reader(rep, flow, tables=T)
+    K1_loader(rep, flow, T, tier, mode="cost")
     rep.rules["T1"]["floor"] = 20
     for f in T.stray:
         rep.note(f"stray table file {f.name} (not advertised): linted like the others, not a violation by existing")
     rep.decided += ["one line per class id (T1)", "four fields / integer columns / indices < n (T3)",
                     "documented gate vocabulary, arity, distinct operands (T2)",
-                    "cost column = counted two-qubit cost, SWAP = 3 (T5)", "depth column = scheduled two-qubit depth (T6)"]
+                    "cost column = counted two-qubit cost, SWAP = 3 (T5)", "depth column = scheduled two-qubit depth (T6)",
+                    "the parsed entry takes cost / depth / circuit from columns 1 / 2 / 3 of its own line (K2) and its loader turns each two-qubit token into one two-qubit gate of the same native cost on the same pair (K1, cost mode): the recorded numbers stay true of the delivered circuit object"]
     rep.not_decided += ["the entry's circuit prepares the graph state of the entry's graph (value-level; pinned for the shipped files by the passing test_verify_state/_stabilizer tests)",
                         "the graph belongs to the class the entry is filed under (value-level; test_verify_lc_class tests)"]
